@@ -449,6 +449,13 @@ class C16(Prop):
                                             f"handler 0 ret {ent}", "handler 1 ret", f"exec {enf}", ed, f"exec {enf}", "caps",
                                             "speccaps 0", "speccaps 1"],
                                   "note": "in-place edit of a registered spec"})
+        if tier != "quick":      # every pair of edits
+            for e1, e2 in itertools.product(edits, repeat=2):
+                for ent in ("0:raw:3", "0:typed:0:1:3"):
+                    for enf in ("1", "0"):
+                        cases.append({"lines": ["mod 0 I O 0:0:1 C 0", "mod 1 I 0:0:1 O C 1", "wire 0 0 1 0",
+                                                f"handler 0 ret {ent}", "handler 1 ret", e1, f"exec {enf}", e2, f"exec {enf}",
+                                                "caps"], "note": "two in-place edits of registered specs"})
         for seq in itertools.product(["share 0", "addcap 0 3", "delcap 0 0", "caps2", "caps", "mod2 0 I O C 2"], repeat=3):
             cases.append({"lines": ["mod 0 I O C 0", "mod 1 I O C 1"] + list(seq) + ["caps", "caps2", "speccaps 0"],
                           "note": "capability edits of a spec object shared by two diagrams"})
@@ -947,6 +954,7 @@ class C16(Prop):
         mutset_2: set = set()
         ext: dict = {}           # (m, p) -> None (raw) | (dt, il)
         shared2: set = set()     # modules whose spec OBJECT is also in the second diagram
+        caps2_open: set = set()  # shared specs whose capability set was edited in place after sharing
         mutset: set = set()      # modules whose handler mutates the dict it is given
         for idx, (line, o) in enumerate(zip(case["lines"], obs)):
             t = line.split()
@@ -966,7 +974,7 @@ class C16(Prop):
                     V("only_wiring_error", "ok or WiringError from add_module", o, idx)
             elif op == "caps2":
                 want = sorted(set().union(*mods2.values())) if mods2 else []
-                if o != "[" + ",".join(map(str, want)) + "]":
+                if o != "[" + ",".join(map(str, want)) + "]" and not caps2_open:
                     V("capabilities_union", f"{want} (union of the declared sets of the second diagram's modules)", o, idx)
             elif op == "speccaps":
                 if int(t[1]) in mods:
@@ -1016,8 +1024,12 @@ class C16(Prop):
                     else:
                         c_.discard(int(t[2]))
                     mods[n] = (i_, o_, frozenset(c_))
-                    if n in shared2:                       # one ModuleSpec object registered in both diagrams
+                    if n in shared2 and op in ("addcap", "delcap"):
+                        # one ModuleSpec object registered in both diagrams: on the pinned code the edit shows in both; whether
+                        # the second diagram's module IS that object is not something the property text decides (a diagram
+                        # that stores a copy is as good), so from here on `caps2` is left to the correspondence
                         mods2[n] = frozenset(c_)
+                        caps2_open.add(n)
             elif op in ("handler", "handler2"):
                 if o == "ok":
                     ent = []
